@@ -38,6 +38,7 @@ type Profile struct {
 	Pins               bool
 	Chans              []string
 	PBaseDeadline      int    // probability (out of 100) of a server whose request contexts have a 50ms deadline
+	OwnBase            bool   // half of the servers give every request a base context of its own (ServerOptions.NewContext) that outcome "endbase" ends
 	PrefixGates        [2]int // the script opens with this many (min, max; capped below the limit) single parking calls, one per record
 }
 
@@ -181,6 +182,9 @@ func ServerScenario(t *rapid.T, p Profile) sim.Scenario {
 	sc.Cfg.Yield = pick(t, "yield", []int{0, 0, 1, 3})
 	if p.PBaseDeadline > 0 && rapid.IntRange(0, 99).Draw(t, "basedl") < p.PBaseDeadline {
 		sc.Cfg.BaseDeadlineMs = 50
+	}
+	if p.OwnBase && sc.Cfg.BaseDeadlineMs == 0 && rapid.Bool().Draw(t, "ownbase") {
+		sc.Cfg.OwnBase = true
 	}
 	if p.PSendFault > 0 && rapid.IntRange(0, 99).Draw(t, "sendfault") < p.PSendFault {
 		// a transient failure: the Send returns an error, the connection stays up
